@@ -257,11 +257,34 @@ func parseNumber(s string) (any, bool) {
 	if err == nil {
 		return z, true
 	}
+	if !isDecimal(s) {
+		return nil, false // e.g., NaN, Inf, hex floats, exponents, underscores
+	}
 	v, err := strconv.ParseFloat(s, 64)
 	if err == nil {
 		return v, true
 	}
 	return nil, false
+}
+
+// isDecimal reports whether s is an optionally-signed string of decimal digits
+// with an optional fractional part.
+func isDecimal(s string) bool {
+	if s != "" && (s[0] == '+' || s[0] == '-') {
+		s = s[1:]
+	}
+	digits, dots := 0, 0
+	for i := 0; i < len(s); i++ {
+		switch {
+		case s[i] >= '0' && s[i] <= '9':
+			digits++
+		case s[i] == '.':
+			dots++
+		default:
+			return false
+		}
+	}
+	return digits > 0 && dots <= 1
 }
 
 func parseConstant(s string) (any, bool) {
